@@ -61,6 +61,11 @@ pub struct ValidCase {
     /// submission order, see `lower`
     pub order: u8,
     pub finish: u8,
+    /// illegal calls sprinkled into the history: (position selector, kind). They must be rejected and leave no trace.
+    /// kind 0: video re-submitting the previous video timestamp; 1: empty video frame; 2: audio with invalid framing at a
+    /// later time; 3: audio earlier than the previous audio; 4: video with NaN timestamp
+    #[serde(default)]
+    pub rejects: Vec<(u8, u8)>,
 }
 
 pub const FPS: [f64; 12] =
@@ -422,7 +427,12 @@ pub fn lower(c: &ValidCase) -> Lowered {
                     } else if ai >= na {
                         true
                     } else {
-                        vexp[vi].dts <= aexp[ai].pts
+                        // ties: video first, or (other half of the cases) audio first as submission order
+                        if (c.order / 4) % 2 == 0 {
+                            vexp[vi].dts <= aexp[ai].pts
+                        } else {
+                            vexp[vi].dts < aexp[ai].pts
+                        }
                     };
                     if take_v {
                         order.push((true, vi));
@@ -483,6 +493,42 @@ pub fn lower(c: &ValidCase) -> Lowered {
             e.op = ops.len();
             ops.push(COp::Audio { pts: e.pts_secs, data: adata[i].clone() });
             op_sample.push(Some((false, i)));
+        }
+    }
+    // sprinkle illegal calls (never expected as samples)
+    for &(pos, kind) in &c.rejects {
+        if ops.is_empty() {
+            break;
+        }
+        let at = 1 + (pos as usize) % ops.len();
+        let prev_video = ops[..at].iter().rev().find(|o| o.is_video()).cloned();
+        let prev_audio = ops[..at].iter().rev().find(|o| matches!(o, COp::Audio { .. })).cloned();
+        let junk = match (kind % 5, prev_video, prev_audio) {
+            (0, Some(COp::Video { pts, data, .. }), _) => Some(COp::Video { pts, data, key: false }),
+            (0, Some(COp::VideoDts { pts, dts, data, .. }), _) => Some(COp::VideoDts { pts, dts, data, key: false }),
+            (1, Some(COp::Video { pts, .. }), _) => Some(COp::Video { pts: pts + 1.0, data: vec![], key: false }),
+            (1, Some(COp::VideoDts { pts, dts, .. }), _) => Some(COp::VideoDts { pts: pts + 1.0, dts: dts + 1.0, data: vec![], key: false }),
+            (2, _, Some(COp::Audio { pts, .. })) if has_audio => Some(COp::Audio { pts: pts + 1024.0 / 90000.0, data: vec![0x12, 0x34, 0x56, 0x78, 0x9a, 0xbc, 0xde, 0xf0, 0x11] }),
+            (3, _, Some(COp::Audio { pts, data })) if has_audio && pts > 1.0 / 90000.0 => Some(COp::Audio { pts: pts - 1.0 / 90000.0, data }),
+            (4, Some(COp::Video { data, .. }), _) | (4, Some(COp::VideoDts { data, .. }), _) => Some(COp::Video { pts: f64::NAN, data, key: false }),
+            _ => None,
+        };
+        if let Some(j) = junk {
+            // an Opus "packet" 0x12.. is a valid TOC; make the junk invalid for Opus too: code 3 with count 0
+            let j = match j {
+                COp::Audio { pts, data } if cfg.audio == 7 && kind % 5 == 2 => COp::Audio { pts, data: vec![0x03, 0x00, data[2]] },
+                other => other,
+            };
+            ops.insert(at, j);
+            op_sample.insert(at, None);
+        }
+    }
+    // op indices of the expected samples moved: recompute
+    for (i, os) in op_sample.iter().enumerate() {
+        match os {
+            Some((true, k)) => vexp[*k].op = i,
+            Some((false, k)) => aexp[*k].op = i,
+            None => {}
         }
     }
     ops.push(COp::Finish(FinishKind::from_idx(c.finish)));
@@ -729,9 +775,9 @@ pub fn valid_case_strategy(maxv: usize, maxa: usize) -> impl Strategy<Value = Va
             if reorder { Just(None).boxed() } else { option::weighted(0.2, 0u8..12).boxed() },
             0u8..3,
             0u8..24,
-            0u8..5,
+            (0u8..5, prop_oneof![1 => Just(Vec::new()), 1 => vec((any::<u8>(), 0u8..5), 1..4)]),
         )
-            .prop_map(|(cfg, v_start, a_off, video, audio, const_rate, fps_mode, use_dts, order, finish)| ValidCase {
+            .prop_map(|(cfg, v_start, a_off, video, audio, const_rate, fps_mode, use_dts, order, (finish, rejects))| ValidCase {
                 cfg,
                 v_start,
                 a_off,
@@ -742,6 +788,7 @@ pub fn valid_case_strategy(maxv: usize, maxa: usize) -> impl Strategy<Value = Va
                 use_dts,
                 order,
                 finish,
+                rejects,
             })
     })
 }
